@@ -5,6 +5,8 @@ import Momo.Proof.ArrFault
   fault-free model `Momo.Arr`, or an exception with array and ledger exactly as before.
 -/
 namespace Momo.ArrF
+set_option linter.unusedSimpArgs false
+set_option linter.unusedVariables false
 open Momo Momo.Arr
 open FM (throw tryCatch)
 variable {α β γ : Type}
